@@ -451,6 +451,14 @@ func (w *World) Build(op Op) (*BuiltTx, error) {
 			spec.AggregationMethod = "mean"
 		case 6: // mode over a numeric type
 			spec.ResponseValueType, spec.AggregationMethod = "uint256", "weighted-mode"
+		case 7: // re-registration attempts that differ only by surrounding whitespace / case of the query type
+			qt = qt + " "
+		case 8:
+			qt = " " + strings.ToUpper(qt)
+		case 9:
+			qt = []string{"SpotPrice ", " spotprice", "TRBBridge\t", "trbbridge\n", "SPOTPRICE"}[mod(op.R[2], 5)]
+		case 10:
+			qt = strings.ToUpper(qt[:1]) + qt[1:]
 		}
 		bt.Msgs = []sdk.Msg{&registrytypes.MsgRegisterSpec{Registrar: signer.Addr.String(), QueryType: qt, Spec: spec}}
 	case OpCreateReporter:
